@@ -19,6 +19,7 @@ let unhex (s : string) : bytes =
   List.init l (fun i -> n_of_int (hexval s.[2*i] * 16 + hexval s.[2*i+1]))
 let hex (b : bytes) : string =
   String.concat "" (List.map (fun x -> Printf.sprintf "%02x" (int_of_n x)) b)
+let hex_of_string (s : string) : string = String.concat "" (List.init (String.length s) (fun i -> Printf.sprintf "%02x" (Char.code s.[i])))
 let str (b : bytes) : string =
   String.init (List.length b) (fun i -> Char.chr (int_of_n (List.nth b i) land 255))
 
@@ -106,8 +107,45 @@ let split_lines (b : bytes) : bytes list =
     | x :: r -> if int_of_n x = 10 then go [] (List.rev cur :: acc) r else go (x :: cur) acc r in
   go [] [] b
 
+let show_entry (e : entry) : string = hex e.e_tag ^ "=" ^ hex e.e_value ^ "@" ^ string_of_int (int_of_n (stamp e))
+
 let run (cols : string array) : string =
   match cols.(0) with
+  | "l_tokens" ->
+      (match parse_block4_fields (unhex cols.(1)) with
+       | TOk es -> "OK\t" ^ String.concat ";" (List.map show_entry es)
+       | TErr -> "ERR" | TOutOfFuel -> "OUTOFFUEL")
+  | "l_track" ->
+      (match parse_block4_fields (unhex cols.(1)) with
+       | TOk es ->
+           let ops = if cols.(2) = "" then [] else String.split_on_char ';' cols.(2) in
+           let tr = ref [] in
+           let outs = List.map (fun op ->
+             match String.split_on_char '|' op with
+             | [tag; vs] ->
+                 let valid = if vs = "*" then None else Some (List.map (fun v -> unhex (hex_of_string v)) (String.split_on_char ',' vs)) in
+                 let (r, tr') = lookup_variant es !tr (unhex (hex_of_string tag)) valid in
+                 tr := tr';
+                 (match r with
+                  | None -> "-"
+                  | Some ((v, l), p) -> hex v ^ "/" ^ (match l with None -> "_" | Some x -> str x) ^ "@" ^ string_of_int (int_of_n p))
+             | _ -> "?") ops in
+           "OK\t" ^ String.concat ";" outs
+       | TErr -> "ERR" | TOutOfFuel -> "OUTOFFUEL")
+  | "l_split" ->
+      (match parse_block4_fields (unhex cols.(1)) with
+       | TOk es ->
+           let b_of s = unhex (hex_of_string s) in
+           let cfg = if String.length cols.(2) > 4 && String.sub cols.(2) 0 4 = "cfg:" then
+               (match String.split_on_char ':' cols.(2) with
+                | _ :: mk :: hc :: cf :: _ ->
+                    { cfg_marker = b_of mk; cfg_c_fields = List.map b_of (List.filter (fun x -> x <> "") (String.split_on_char ',' cf)); cfg_has_c = (hc = "1") }
+                | _ -> get_sequence_config (b_of cols.(2)))
+             else get_sequence_config (b_of cols.(2)) in
+           let ((a, b), c) = split_into_sequences cfg es in
+           let f l = String.concat ";" (List.map show_entry l) in
+           "OK\t" ^ f a ^ "\t" ^ f b ^ "\t" ^ f c
+       | TErr -> "ERR" | TOutOfFuel -> "OUTOFFUEL")
   | "hdr1" -> (match parse_b1 (unhex cols.(1)) with None -> "ERR" | Some h -> "OK\t" ^ hex (display_b1 h) ^ "\t" ^ hex h.bh_sender_bic)
   | "hdr2" -> (match parse_b2 (unhex cols.(1)) with None -> "ERR" | Some h -> "OK\t" ^ hex (display_b2 h) ^ "\t" ^ hex (message_type_of h))
   | "hdr3" -> "OK\t" ^ hex (user_header_display (unhex cols.(1)))
